@@ -40,7 +40,7 @@ Has(ev, f) == f \in DOMAIN ev
 (* Object states                                                           *)
 
 KsUnset  == [set |-> FALSE, tk |-> <<>>, adds |-> <<>>]
-TksUnset(kind) == [set |-> FALSE, key |-> <<>>, tw |-> ZeroSeq(BS(kind)), adds |-> <<>>]
+TksUnset(kind) == [set |-> FALSE, fam |-> "tweaked", key |-> <<>>, tw |-> ZeroSeq(BS(kind)), adds |-> <<>>]
 MksUnset == [set |-> FALSE, key |-> <<>>, mode |-> "enc", tw |-> ZeroSeq(8), r |-> 0]
 
 (* key state embedded in CTR / parallel objects *)
@@ -180,6 +180,26 @@ TKsSetKey ==
            /\ NoHeap(ev)
     /\ UNCHANGED <<env, tks, mks, ctr, par>>
 
+(* skinnyNN_set_key applied to the public inner schedule (.ks) of a tweakable   *)
+(* key object: a plain key, the remembered tweak slot stays as it was          *)
+TKsSetKeyInner ==
+    /\ IsEvent("ks_set_key") /\ Ev.t = 1
+    /\ LET ev == Ev  kind == ev.k  o == ev.o
+           valid == o >= 0 /\ ev.key_null = 0 /\ ValidKeyLen(kind, FALSE, ev.len)
+       IN  /\ Chk("ks_set_key ret", IF valid THEN 1 ELSE 0, ev.ret)
+           /\ IF o < 0 THEN UNCHANGED tks
+              ELSE LET old == tks[kind][o]
+                       new == IF valid
+                              THEN LET k == PlainKey(kind, ev.key, ev.len)
+                                   IN [set |-> TRUE, fam |-> "plain", key |-> k.tk, tw |-> old.tw, adds |-> k.adds]
+                              ELSE old
+                   IN  /\ Chk("rounds", KsRounds(kind, new), ev.rounds)
+                       /\ Chk("schedule image", KsImage(kind, new), ev.sched)
+                       /\ Chk("remembered tweak", new.tw, ev.tw)
+                       /\ tks' = [tks EXCEPT ![kind][o] = new]
+           /\ NoHeap(ev)
+    /\ UNCHANGED <<env, ks, mks, ctr, par>>
+
 TKsSetTweakedKey ==
     /\ IsEvent("ks_set_tweaked_key")
     /\ LET ev == Ev  kind == ev.k  o == ev.o
@@ -188,7 +208,7 @@ TKsSetTweakedKey ==
            /\ IF o < 0 THEN UNCHANGED tks
               ELSE LET new == IF valid
                               THEN LET k == TweakedKey(kind, PadKey(kind, ev.key, ev.len), ZeroSeq(BS(kind)))
-                                   IN [set |-> TRUE, key |-> k.pkey, tw |-> k.tw, adds |-> k.adds]
+                                   IN [set |-> TRUE, fam |-> "tweaked", key |-> k.pkey, tw |-> k.tw, adds |-> k.adds]
                               ELSE tks[kind][o]
                    IN  /\ Chk("rounds", KsRounds(kind, new), ev.rounds)
                        /\ Chk("schedule image", KsImage(kind, new), ev.sched)
@@ -208,9 +228,15 @@ TKsSetTweak ==
               ELSE LET old == tks[kind][o]
                        tw  == PadTweak(kind, ev.tweak, ev.len, ev.tweak_null = 1)
                        new == IF ~valid THEN old
-                              ELSE IF old.set
+                              ELSE IF old.set /\ old.fam = "tweaked"
                               THEN LET k == TweakedKey(kind, old.key, tw)
-                                   IN [set |-> TRUE, key |-> k.pkey, tw |-> k.tw, adds |-> k.adds]
+                                   IN [set |-> TRUE, fam |-> "tweaked", key |-> k.pkey, tw |-> k.tw, adds |-> k.adds]
+                              ELSE IF old.set
+                              THEN \* inner schedule keyed plainly through the public .ks member: the code's
+                                   \* incremental update on a plain schedule (implementation-defined, modelled)
+                                   [old EXCEPT !.tw = tw,
+                                               !.adds = XorAdds(XorAdds(@, Tk1Contrib(CW(kind), old.tw, Len(@))),
+                                                                Tk1Contrib(CW(kind), tw, Len(@)))]
                               ELSE [old EXCEPT !.tw = tw]
                    IN  /\ Chk("rounds", KsRounds(kind, new), ev.rounds)
                        /\ Chk("schedule image", KsImage(kind, new), ev.sched)
@@ -538,7 +564,7 @@ TParCryptM  == ParCrypt("par_crypt", TRUE)
 ----------------------------------------------------------------------------
 TraceNext ==
     \/ TEnv \/ TLayout \/ TReset \/ TQuiesce \/ TShare \/ TStaticData
-    \/ TKsSetKey \/ TKsSetTweakedKey \/ TKsSetTweak \/ TKsEnc \/ TKsDec
+    \/ TKsSetKey \/ TKsSetKeyInner \/ TKsSetTweakedKey \/ TKsSetTweak \/ TKsEnc \/ TKsDec
     \/ TMkSetKey \/ TMkSetTweak \/ TMkSwap \/ TMkCrypt \/ TMkCryptTw
     \/ TCtrInit \/ TCtrCleanup \/ TCtrSetKey \/ TCtrSetTweakedKey \/ TCtrSetTweak
     \/ TCtrSetCounter \/ TCtrEncrypt
